@@ -352,40 +352,61 @@ def _literal_array(node):
 def f_tables(ctx):
     rule = "f/T7-quadrature-tables"
     tri = ctx.need(f"{QR}:create_quadrature_rule_on_triangle")
-    # walk the if/elif chain
-    chain = []
-    st = [s for s in tri.node.body if isinstance(s, ast.If)]
-    if not st:
-        raise Incomplete("triangle rule: if-chain not found")
-    cur = st[0]
-    lower = 0
-    while isinstance(cur, ast.If):
-        t = cur.test
-        hi = None
-        if isinstance(t, ast.Compare) and src(t.left) == "degree":
+    # dispatch evaluated per requested degree: the branch that a given integer degree selects is found by folding the tests
+    # (comparisons of the parameter with literals, not/and/or); raising branches mean "not supported"
+    dpar = tri.params()[0]
+
+    def fold_test(t, d):
+        if isinstance(t, ast.Compare) and len(t.ops) == 1 and isinstance(t.left, ast.Name) and t.left.id == dpar:
             c = const_value(t.comparators[0])
-            if isinstance(t.ops[0], ast.LtE):
-                hi = c
-            elif isinstance(t.ops[0], ast.Eq):
-                hi = c
-            elif isinstance(t.ops[0], ast.Lt):
-                hi = c - 1
-        chain.append((hi, cur.body))
-        cur = cur.orelse[0] if len(cur.orelse) == 1 else None
+            if c is None:
+                raise ValueError("non-literal bound")
+            return {ast.LtE: d <= c, ast.Lt: d < c, ast.Eq: d == c, ast.GtE: d >= c, ast.Gt: d > c, ast.NotEq: d != c}[type(t.ops[0])]
+        if isinstance(t, ast.UnaryOp) and isinstance(t.op, ast.Not):
+            return not fold_test(t.operand, d)
+        if isinstance(t, ast.BoolOp):
+            vals_ = [fold_test(v, d) for v in t.values]
+            return all(vals_) if isinstance(t.op, ast.And) else any(vals_)
+        raise ValueError("test is not a bound on the degree")
+
+    def select(body, d, env):
+        """statements executed for degree d (assignments recorded in env); returns 'raise' / 'return' / None"""
+        for st_ in body:
+            if isinstance(st_, ast.If):
+                r_ = select(st_.body if fold_test(st_.test, d) else st_.orelse, d, env)
+                if r_:
+                    return r_
+            elif isinstance(st_, ast.Raise):
+                return "raise"
+            elif isinstance(st_, ast.Return):
+                env["@return"] = st_.value
+                return "return"
+            elif isinstance(st_, ast.Assign) and isinstance(st_.targets[0], ast.Name):
+                env[st_.targets[0].id] = st_.value
+        return None
+    chain = []
+    seen_tables = {}
+    for d in range(0, 16):
+        env_ = {}
+        try:
+            r_ = select(tri.node.body, d, env_)
+        except ValueError as ex:
+            ctx.undecided(rule, tri, None, construct=f"degree={d}:dispatch", detail=str(ex))
+            continue
+        if r_ != "return":
+            continue
+        rv = env_["@return"]
+        args_ = list(rv.args) + [k.value for k in rv.keywords] if isinstance(rv, ast.Call) else []
+        tabs = [env_.get(a.id) if isinstance(a, ast.Name) else a for a in args_[:2]]
+        key_ = tuple(id(t) for t in tabs)
+        seen_tables.setdefault(key_, [tabs, d])
+        seen_tables[key_][1] = d           # highest degree that selects this table
+    for key_, (tabs, hi) in seen_tables.items():
+        chain.append((hi, tabs))
     n_br = 0
     tol = Fraction(2, 10**14)
-    for (hi, body) in chain:
-        if hi is None:
-            ctx.undecided(rule, tri, None, construct="branch", detail="branch condition is not a bound on `degree`")
-            continue
-        xi = w = None
-        rr_ = tri.returns()
-        names_ = [src(a) for a in rr_[0].args[:2]] if rr_ and isinstance(rr_[0], ast.Call) and len(rr_[0].args) >= 2 else ["xi", "w"]
-        for s in body:
-            if isinstance(s, ast.Assign) and src(s.targets[0]) == names_[0]:
-                xi = s.value
-            if isinstance(s, ast.Assign) and src(s.targets[0]) == names_[1]:
-                w = s.value
+    for (hi, tabs) in chain:
+        xi, w = (tabs + [None, None])[:2]
         try:
             X, W = _literal_array(xi), _literal_array(w)
         except (ValueError, AttributeError, TypeError) as ex:
